@@ -30,8 +30,9 @@ def _body(cs, o0, o1, o2, k, reps):
     if kind in ("generator", "suppressing"):
 
         @A.contextmanager
-        async def cm(tag="default-tag", *, mode="default-mode"):
-            if tag != "x" or mode != "kw":
+        async def cm(tag="default-tag", *, func="default-mode", self="default-self"):
+            # parameter names chosen to collide with the manager's own internals if arguments are forwarded carelessly
+            if tag != "x" or func != "kw" or self != "kw2":
                 W.bad("decorator:manager-recreated-without-its-arguments")
             ctr[0] += 1
             me = ctr[0]
@@ -53,7 +54,7 @@ def _body(cs, o0, o1, o2, k, reps):
                 for _ in range(xsusp):
                     await Suspend(W)
 
-        deco = cm("x", mode="kw")
+        deco = cm("x", func="kw", self="kw2")
     else:
 
         class Deco(A.ContextDecorator):
@@ -80,6 +81,11 @@ def _body(cs, o0, o1, o2, k, reps):
     outcomes = [o0, o1, o2]
     faults = [Fault("body-%d" % t) for t in range(3)]
     plain = [Exception("plain-%d" % t) for t in range(3)]
+
+    class EndOfStream(StopAsyncIteration):
+        pass
+
+    stops = [EndOfStream("stop-%d" % t) for t in range(3)]
     active = {}
 
     @deco
@@ -95,12 +101,21 @@ def _body(cs, o0, o1, o2, k, reps):
             raise faults[t]
         if outcomes[t] == 2:
             raise plain[t]
+        if outcomes[t] == 3:
+            raise stops[t]
         return ("result", t, rep)
 
     results = {}
 
     async def caller(t):
         out = []
+        if P("direct", False) and t == 0:
+            # the decorating manager object is itself entered once; later calls still get fresh contexts
+            async with deco:
+                ne = sum(1 for e in log if e[0] == "enter")
+                nx = sum(1 for e in log if e[0] == "exit")
+                log.append(("body", "direct", 0, ne - nx))
+                log.append(("body-end", "direct", 0))
         for rep in range(reps):
             try:
                 out.append(("ok", await func(t, rep)))
@@ -125,7 +140,7 @@ def _body(cs, o0, o1, o2, k, reps):
         if t in results:
             for rep, r in enumerate(results[t]):
                 if outcomes[t] >= 1:
-                    want = faults[t] if outcomes[t] == 1 else plain[t]
+                    want = faults[t] if outcomes[t] == 1 else (plain[t] if outcomes[t] == 2 else stops[t])
                     if kind == "suppressing":
                         if r != ("ok", None):
                             ok = fail("decorator:suppressed-exception-not-suppressed", (t, r)) and ok
@@ -152,7 +167,7 @@ def _body(cs, o0, o1, o2, k, reps):
             if bodies > body_ended:
                 ok = fail("decorator:exit-did-not-receive-cancellation", (choices.trace,)) and ok
     if not cancelled:
-        if n_enter != n_body or n_exit != n_body or n_body != NT * reps:
+        if n_enter != n_body or n_exit != n_body or n_body != NT * reps + (1 if P("direct", False) else 0):
             ok = fail("decorator:enter-body-exit-counts-differ", (n_enter, n_body, n_exit)) and ok
     if kind in ("generator", "suppressing"):
         # each call got its own generator; its exit received that call's body exception
@@ -162,7 +177,7 @@ def _body(cs, o0, o1, o2, k, reps):
         enters = [e[1] for e in log if e[0] == "enter"]
         if not cancelled:
             got_faults = [v for v in exits.values() if v is not None]
-            want = [(faults[t] if outcomes[t] == 1 else plain[t]) for t in range(NT) if outcomes[t] >= 1 for _ in range(reps)]
+            want = [(faults[t] if outcomes[t] == 1 else (plain[t] if outcomes[t] == 2 else stops[t])) for t in range(NT) if outcomes[t] >= 1 for _ in range(reps)]
             if len(got_faults) != len(want) or any(not any(g is w for w in want) for g in got_faults):
                 ok = fail("decorator:exit-did-not-receive-body-exception", (got_faults, want)) and ok
             if sorted(exits) != sorted(enters):
@@ -202,7 +217,9 @@ def jobs(tier):
 
     for kind in ("generator", "decorator-class", "suppressing"):
         add(kind=kind, T=2, ES=1, BS=1, XS=1)
-        add(kind=kind, T=1, ES=1, BS=1, XS=1, REPS=3)
+        add(kind=kind, T=1, ES=1, BS=1, XS=1, REPS=3, OUT=3)
+        add(kind=kind, T=1, ES=1, BS=1, XS=1, REPS=2, OUT=1, direct=True)
+        add(kind=kind, T=2, ES=0, BS=1, XS=0, OUT=1, direct=True)
         add(kind=kind, T=2, ES=1, BS=1, XS=1, K=3, OUT=1)
         add(kind=kind, T=3, ES=(0 if q else 1), BS=1, XS=0, OUT=(1 if q else 2))
         if not q:
@@ -212,7 +229,7 @@ def jobs(tier):
 
 
 BOUNDS = {
-    "quick": "all interleavings of 2..3 concurrent calls of one decorated coroutine function with suspensions in enter, body and exit; body outcome return / raise an Exception subclass / raise exactly Exception per call (symbolic); manager created with positional and keyword arguments; manager built by contextmanager, a ContextDecorator subclass, or suppressing; 1..3 repeated sequential calls (symbolic count); first caller cancelled at its k-th suspension (k<=3)",
+    "quick": "all interleavings of 2..3 concurrent calls of one decorated coroutine function with suspensions in enter, body and exit; body outcome return / raise an Exception subclass / raise exactly Exception / raise a StopAsyncIteration subclass per call (symbolic); the decorating manager object also entered directly once before the calls (direct jobs); generator parameters named func and self passed by keyword; manager created with positional and keyword arguments; manager built by contextmanager, a ContextDecorator subclass, or suppressing; 1..3 repeated sequential calls (symbolic count); first caller cancelled at its k-th suspension (k<=3)",
     "thorough": "3 calls with suspensions everywhere, 2 suspensions in the body, repeated concurrent calls",
 }
 OUTSIDE = ["more than 3 concurrent calls", "ContextDecorator subclasses that override _recreate_cm"]
